@@ -3,6 +3,8 @@ package drive
 import (
 	"errors"
 	"fmt"
+	"github.com/ory/keto/internal/namespace"
+	"github.com/ory/keto/internal/namespace/ast"
 	"os"
 	"strings"
 	"testing"
@@ -52,6 +54,59 @@ func init() {
 	}
 }
 
+// computedCycle reports whether some permission can reach itself through computed
+// subject sets alone (by relation name, whatever the namespace). Only then can the
+// construction of a check recurse without a storage call in between, so that its cost
+// is bounded by the depth alone (p = p && p costs 2^depth): such configurations keep
+// their own depth in the concurrent runs.
+func computedCycle(nss []*namespace.Namespace) bool {
+	edges := map[string]map[string]bool{}
+	var walk func(from string, c ast.Child)
+	walk = func(from string, c ast.Child) {
+		switch c := c.(type) {
+		case *ast.ComputedSubjectSet:
+			if edges[from] == nil {
+				edges[from] = map[string]bool{}
+			}
+			edges[from][c.Relation] = true
+		case *ast.SubjectSetRewrite:
+			for _, ch := range c.Children {
+				walk(from, ch)
+			}
+		case *ast.InvertResult:
+			walk(from, c.Child)
+		}
+	}
+	for _, n := range nss {
+		for _, r := range n.Relations {
+			if r.SubjectSetRewrite != nil {
+				walk(r.Name, r.SubjectSetRewrite)
+			}
+		}
+	}
+	state := map[string]int{}
+	var dfs func(x string) bool
+	dfs = func(x string) bool {
+		state[x] = 1
+		for y := range edges[x] {
+			if state[y] == 1 || (state[y] == 0 && dfs(y)) {
+				return true
+			}
+		}
+		state[x] = 2
+		return false
+	}
+	for x := range edges {
+		if state[x] == 0 && dfs(x) {
+			return true
+		}
+	}
+	return false
+}
+
+// concDepth is the global depth of the runs with the real concurrent checkgroup.
+const concDepth = 120
+
 func engNontrivial(c *EngCase, calls int64) bool {
 	// at least one expansion or rewrite evaluated: more than the single direct lookup
 	return calls >= 2
@@ -79,13 +134,26 @@ func streamEngine(t *testing.T, o *Out, p EngProfile) {
 		if withConc {
 			// the real concurrent checkgroup, several times: the decision must not depend on
 			// goroutine scheduling
-			cres, _ := env.runCheck(c, false)
-			for k := 0; k < 4 && cres == res; k++ {
-				if again, _ := env.runCheck(c, false); again != cres {
+			// goroutine scheduling. These runs use a global depth that cannot bind (a depth
+			// that binds makes the answer depend on which sibling expansion marks a shared
+			// subject set visited first - fail closed, and outside "limits not binding"); the
+			// oracle judges cres only when the model's run at the case's own depth had no
+			// limit event, where the answer does not depend on the depth.
+			cc := *c
+			if cc.GDepth < concDepth && !computedCycle(c.NSs) {
+				cc.GDepth, cc.RDepth = concDepth, 0
+			}
+			cres, ccalls := env.runCheck(&cc, false)
+			for k := 0; k < 4 && cres == res && ccalls <= callBudget; k++ {
+				if again, _ := env.runCheck(&cc, false); again != cres {
 					cres = again
 				}
 			}
-			impl += "\tcres=" + cres
+			if ccalls <= callBudget {
+				impl += "\tcres=" + cres
+			} else {
+				o.Count("dropped:conc-cost")
+			}
 		}
 		o.Emit("engine", fmt.Sprintf("%s%d", tag, id), c.Payload(), impl, engNontrivial(c, calls))
 		o.Count("res:" + res)
